@@ -277,6 +277,28 @@ def check_table(ctx, table, v, approx, idx):
         elif not (same(lk, vl) or (lk in (None, 0) and vl in (None, 0))):
             rec.fail(f'law:lookup=vlookup:{tag}', case,
                      f'LOOKUP = {lk!r} but VLOOKUP(..., TRUE) = {vl!r}')
+    # LOOKUP array form: a square or tall table is searched down its first
+    # column and answered from its last column, a wide one along its first
+    # row and answered from its last row (only asserted where the searched
+    # vector is the sorted one)
+    if approx and h > 1:
+        last, e5 = ctx.call(f'=VLOOKUP(P1,{T},{w},TRUE)', cells)
+        forms = []
+        if h >= w:
+            forms.append(('tall' if h > w else 'square', T))
+        if h > w:
+            forms.append(('wide', TT))
+        for shape, ref in forms if e5 is None else ():
+            la, e6 = ctx.call(f'=LOOKUP(P1,{ref})', cells)
+            rec.label(f'LOOKUP-array:{shape}')
+            if e6 is not None:
+                rec.fail(f'LOOKUP:raises:{exc_key(e6)}:array-{shape}', case,
+                         f'LOOKUP({v!r}, {shape} table) raised {e6!r}'[:300])
+            elif not (same(la, last) or (la in (None, 0) and
+                                         last in (None, 0))):
+                rec.fail(f'law:lookup-array=vlookup-last:{shape}', case,
+                         f'LOOKUP({v!r},{ref}) = {la!r} on the {shape} form '
+                         f'of {table}, VLOOKUP(..,{w},TRUE) = {last!r}')
     # INDEX out of range
     for r, c, wantx in ((h + 1, 1, '#REF!'), (1, w + 1, '#REF!'),
                         (-1, 1, '#VALUE!'), (1, -1, '#VALUE!')):
@@ -369,6 +391,14 @@ def table_case():
                               min_size=3, max_size=12))
 
 
+PURITY_TEMPLATES = ['=MATCH(C1,A1:B1,0)',
+                    '=MATCH(C1,A1:B1,1)',
+                    '=MATCH(C1,A1:B1,-1)',
+                    '=HLOOKUP(C1,A1:B1,1,FALSE)',
+                    '=LOOKUP(C1,A1:B1)',
+                    '=INDEX(A1:B1,1,C1)']
+
+
 def shards(tier, seed):
     out = [dict(kind='fixed')]
     n_h = 10 if tier == 'quick' else 16
@@ -377,6 +407,7 @@ def shards(tier, seed):
                         n=1500 if tier == 'quick' else 40000))
     out.append(dict(kind='workbook', seed=seed * 1000 + 99,
                     n=80 if tier == 'quick' else 1500))
+    out.append(dict(kind='purity'))
     return out
 
 
@@ -404,6 +435,9 @@ def strategy():
 
 
 def run_shard(shard, rec):
+    if shard['kind'] == 'purity':
+        from vlib import purity
+        return purity.run(rec, ID, PURITY_TEMPLATES)
     kind = shard['kind']
     if kind == 'fixed':
         ctx = Ctx(rec)
@@ -433,6 +467,9 @@ def run_shard(shard, rec):
 
 
 def replay(case, rec):
+    from vlib import purity
+    if purity.is_case(case):
+        return purity.replay(rec, ID, case)
     if isinstance(case, list):
         _body(rec, Ctx(rec))(case)
         return
